@@ -306,8 +306,10 @@ pub fn target(u: u32) -> BoxedStrategy<Target> {
     }
     prop_oneof![
         10 => (0..u).prop_map(Target::Id),
-        3 => any::<u16>().prop_map(Target::Pos),
-        2 => any::<u16>().prop_map(Target::Slot),
+        // the two ends of the heap vector and of the slot order are where removal and insertion fix-ups
+        // happen: they get a share of their own (the last slot is the most recently inserted element)
+        3 => prop_oneof![6 => any::<u16>(), 1 => Just(0u16), 2 => Just(65535u16), 1 => Just(32767u16)].prop_map(Target::Pos),
+        3 => prop_oneof![5 => any::<u16>(), 1 => Just(0u16), 3 => Just(65535u16)].prop_map(Target::Slot),
         1 => Just(Target::Max),
         1 => Just(Target::Min),
     ]
